@@ -21,5 +21,11 @@ for f in sorted(glob.glob(os.path.join(ROOT, "seeded", "*", "meta.json"))):
             by.append(o)
     rows.append("| %s | %s | %s | %s |" % (m["id"], m["title"].replace("|", "/")[:150], (m.get("files_changed") or [""])[0],
                                          "; ".join(by) if by else "**missed**"))
-print("| seed | change | file | caught by (`./check Cxx quick`, oracle signature) |\n|---|---|---|---|")
-print("\n".join(rows))
+table = "| seed | change | file | caught by (`./check Cxx quick`, oracle signature) |\n|---|---|---|---|\n" + "\n".join(rows)
+import sys
+if "--update" in sys.argv:
+    p = os.path.join(ROOT, "DESIGN.md"); s = open(p).read()
+    a = s.index("<!-- SEED-TABLE-BEGIN -->") + len("<!-- SEED-TABLE-BEGIN -->"); b = s.index("<!-- SEED-TABLE-END -->")
+    open(p, "w").write(s[:a] + "\n" + table + "\n" + s[b:])
+else:
+    print(table)
